@@ -28,6 +28,11 @@ Readings (where the property's words leave a choice, the one under which the rep
   divisions * duration_beat * 4/beat_type = duration_div); for beat-only arrays (documented as
   quarters) onset_div/divs and duration_div/divs of the new part equal the given beats, up to
   the documented shift that moves a negative first onset to 0.
+* inverse direction, what comes BACK (round 4): the quarter / beat columns of the new part's note array are the
+  onsets that went in - a late entry (positive first onset) stays where it is, a pickup (negative first onset, time
+  signature, shorter than a bar) ends at beat 0, a barebones part counts from its first note (documented shift).
+  Not judged (see inv_expected_back): pieces that end before their first bar line (C02 reads the only, short,
+  measure as a pickup), bars that are not a whole number of divisions (C11), contradicting columns.
 """
 import math
 from fractions import Fraction
@@ -39,7 +44,8 @@ from core import Eval
 
 PROPERTY = "C05"
 DRIVER = "drv_c05"
-PROPS = ["PartituraModel.Props.C05", "PartituraModel.Props.C05Compose", "PartituraModel.Props.C05Collapse"]
+PROPS = ["PartituraModel.Props.C05", "PartituraModel.Props.C05Compose", "PartituraModel.Props.C05Collapse",
+         "PartituraModel.Props.C05Back"]
 TRUSTED = [
     "the timeline reads that describe a part to the model (property C01): len(part._points), first/last point, "
     "_quarter_times/_quarter_durations, iter_all(TimeSignature | KeySignature | Measure) with their start/end times, "
@@ -55,6 +61,11 @@ TRUSTED = [
     "estimate_spelling / estimate_voices keep the pitch (C17) and add_measures / tie_notes keep the tied duration "
     "(C11) inside note_array_to_score(sanitize=True): hypothesis of from_to_array_sanitized; on every generated array "
     "the oracle compares the sanitized part with the unsanitized one and reads the tie chains off the timeline",
+    "inverse direction, what comes back (request `invback`): the model is told the one time signature the new part gets "
+    "(columns of the array / time_sigs / 4/4 for estimate_time) and the sanitize flag; of add_measures only the first "
+    "measure (to the bar line or the end of the part) and of the time maps only the pickup rule are modelled (C11 / C02 "
+    "own the rest); the float arithmetic of anacrusis_divs (float32 x int64 -> binary64, float32 x Python int -> float32) is "
+    "modelled by exact rationals and half-even rounding (repaired rule, fixes/C05-9): they agree unless the noise reaches 1/2",
     "isinstance dispatch of Python: the harness tells the model the kind of the argument (Part, PartGroup, Score, list, "
     "structured / plain ndarray, other); PerformedPart / Performance arguments belong to other properties",
 ]
@@ -66,6 +77,11 @@ PARTIAL = [
     "the oracle on each generated part, overlapping rests are compared with the model only",
     "from_to_array: the model's created part has no measures/ties; the sanitize=True path enters as the hypothesis of "
     "from_to_array_sanitized (C11's statement) and is compared",
+    "Props/C05Back.lean (onsets that come back): proved for beat columns on the 1/256 grid (limit_denominator is then the "
+    "identity: late_entry_not_moved / pickup_moved_to_zero hold for every array in terms of the limited beats); beats that "
+    "float32 does not hold exactly (5/6 -> 0.8333333) are covered by the correspondence `invback`, the oracle clause "
+    "'inverse onsets back' and the kernel-checked example exPickup32, not by a theorem; one time signature, one division "
+    "value; onsets_back_late_entry assumes the created part has no short first measure (no_pickup_without_short_bar says when)",
     "row_values_composed: a time outside the part's extent (NaN in a float column) makes the model refuse (`none`) where "
     "the code stores NaN; generated notes lie inside the part; musical beats only with the default table "
     "(use_musical_beat() without arguments)",
@@ -79,9 +95,13 @@ RULE = ("generated parts (explicit measures, optional pickup, time/key signature
         "(Part/PartGroup/Score.note_array, note_array_from_part(_list), ensure_notearray on part / group / score / list / "
         "arrays / other objects; the same for rest arrays incl. collapse on every division value); random note arrays "
         "(beat / div / both columns, optional time-signature columns, negative first onsets, malformed, sanitize on/off, "
-        "notes crossing barlines) for the inverse.  distinct = distinct request text; non-trivial = at least one row compared")
+        "notes crossing barlines) for the inverse; the inverse direction additionally over the whole grid {beat, div, both "
+        "columns} x {negative, zero, positive first onset} x {barebones, estimate_time, time-signature columns, time_sigs "
+        "list}, every cell at least twice per run (30 x in thorough), with quarter columns, sanitize on/off, pickups that float32 "
+        "rounds towards 0, late entries of a division / a beat / whole bars.  distinct = distinct request text; non-trivial = at least one row compared")
 LEVEL_TEXT = ("Lean 4 theorems over an executable model of the table construction (tie chains, voice/staff replacement, "
-              "two-pass sort, lcm rescaling, id prefixing, rest collapsing, entry-point dispatch, inverse construction), "
+              "two-pass sort, lcm rescaling, id prefixing, rest collapsing, entry-point dispatch, inverse construction incl. "
+              "when the onsets are shifted, where the pickup measure ends and which quarter / beat onsets come back), "
               "unbounded over all note lists, composed with the C02 / C10 models of the part's maps (row_values_composed: "
               "every time / signature / metrical column IS that model's value at the onset or offset, float32 only in the "
               "sort key); the model is tied to the code by running both on the same generated parts/scores/arrays - the "
@@ -1559,6 +1579,11 @@ def distribution(descs, results):
             feats["nested"] += any(isinstance(x, list) for x in d["tree"])
         if d["k"] == "inv":
             feats["inv_" + d["cols"]] += 1
+            if d.get("grid"):
+                feats["inv_grid_" + "_".join(d["grid"][:2])] += 1
+            elif d.get("wf", True) and d["cols"] == "beat" and min(x["o"] for x in d["rows"]) - d.get("neg", 0) > 0:
+                feats["inv_beat_pos"] += 1
+    feats["inv_onsets_back_judged"] = sum(1 for r in results if r.get("info", {}).get("back", 0) > 0)
     feats["inv_with_measures"] = sum(1 for r in results if r.get("info", {}).get("measures", 0) > 0)
     feats["inv_notes_split_by_tie_notes"] = sum(1 for r in results if r.get("info", {}).get("split", 0) > 0)
     feats["musical_beats"] = sum(1 for d in descs for pd in ([d["part"]] if "part" in d else d.get("parts", [])) if pd.get("musical"))
